@@ -28,11 +28,13 @@ Lemma donation_not_send o out r id d : (forall f t d0 a, o <> OSend f t d0 a) ->
 Proof. intros H. destruct o; try reflexivity. exfalso. eapply H. reflexivity. Qed.
 
 (* an auction a block has nothing to do for, by status alone *)
-Definition untouched (a : auction) : bool :=
-  match a_status a with StandBy | Started | VestingS => false | _ => true end.
-
-Lemma untouched_idle t s a : untouched a = true -> idle t s a.
-Proof. unfold untouched, idle. destruct (a_status a); intros H; try discriminate H; exact I. Qed.
+Lemma idle_b_idle tm s a : idle_b tm s a = true -> idle tm s a.
+Proof.
+  unfold idle_b, idle. destruct (a_status a); intros H; try exact I.
+  - apply Z.ltb_lt, H.
+  - apply Z.ltb_lt, H.
+  - intros v Hv. rewrite forallb_forall in H. specialize (H v Hv). apply negb_true_iff in H. exact H.
+Qed.
 
 (* everything about an auction that is not the target of the operation is left alone; its escrows change only by
    what a plain send puts into them *)
@@ -40,7 +42,7 @@ Lemma c19_frame_other s o id :
   Inv s -> o <> OGenesis ->
   match FrameFacts.target s o with
   | Some a => N.eqb a id
-  | None => FrameFacts.is_block o && match find_auction s id with Some a => negb (untouched a) | None => false end
+  | None => FrameFacts.is_block o && match find_auction s id with Some a => negb (idle_b (FrameFacts.block_time o) s a) | None => false end
   end = false ->
   slice_eqb s (snd (step s o)) id = true
   /\ forall r d, st_bal (snd (step s o)) (Escrow r id) d = st_bal s (Escrow r id) d + donation o (fst (step s o)) r id d.
@@ -55,7 +57,7 @@ Proof.
       assert (F : slice_eq id s (snd (step s o))).
       { apply (L_C19_frame_block s o id (Inv_ids_ok s I) Hblk).
         destruct (find_auction s id) as [a|] eqn:Fa; [right|left; reflexivity].
-        exists a. split; [reflexivity|]. apply untouched_idle. apply negb_false_iff. exact Hnt. }
+        exists a. split; [reflexivity|]. apply idle_b_idle. apply negb_false_iff. exact Hnt. }
       split; [apply slice_eqb_of; exact F|].
       intros r d. rewrite (se_bal _ _ _ F), donation_not_send; [lia|].
       intros f t d0 a ->. discriminate Hblk.
@@ -146,7 +148,7 @@ Proof.
       destruct (FrameFacts.target s o); [exact Htg|].
       destruct (FrameFacts.is_block o); [|reflexivity]. cbn [andb] in *.
       destruct (find_auction s id) as [a|]; [|reflexivity].
-      unfold touched_by_block in Htg. unfold untouched. destruct (a_status a); cbn [negb]; try exact Htg; reflexivity. }
+      unfold touched_by_block in Htg. cbn [t_op t_pre] in Htg. exact Htg. }
     rewrite Es2 in Hs, He. rewrite Es1 in He.
     apply andb_true_iff. split; [exact Hs|].
     unfold escrows_eqb. apply forallb_forall. intros r _. apply forallb_forall. intros d _.
